@@ -443,6 +443,13 @@ class TransferFrame:
             frame.header.frame_len + 1 != frame_properties.fixed_len
         ):
             raise UslpInvalidRawPacketOrFrameLen
+        # The whole frame, as declared by the header or the managed parameters, must be there
+        if header_type == HeaderType.TRUNCATED:
+            declared_frame_len = frame_properties.truncated_frame_len
+        else:
+            declared_frame_len = frame.header.frame_len + 1
+        if len(raw_frame) < declared_frame_len:
+            raise UslpInvalidRawPacketOrFrameLen
         exact_tfdf_len = cls.__get_tfdf_len(
             frame_type=frame_type,
             header_type=header_type,
